@@ -30,6 +30,10 @@ import (
 type Constant struct {
 	linkOnce
 
+	// linking is true while the constant's own definition is being linked.
+	// A reference to a constant in this state is a definition cycle.
+	linking bool
+
 	Name  string
 	File  string
 	Doc   string
@@ -59,6 +63,13 @@ func (c *Constant) Link(scope Scope) (err error) {
 		return nil
 	}
 
+	c.linking = true
+	err = c.link(scope)
+	c.linking = false
+	return err
+}
+
+func (c *Constant) link(scope Scope) (err error) {
 	if c.Type, err = c.Type.Link(scope); err != nil {
 		return compileError{Target: c.Name, Reason: err}
 	}
